@@ -261,7 +261,7 @@ def run_chunk(chunk):
 
 
 def replay(case):
-    r = Result()
+    r = Result(keep_all=True)
     name = case["g"]
     g = GRAMS[name]
     cg = canon(g)
@@ -271,7 +271,7 @@ def replay(case):
     tree = RT.strip_ids(from_tjson(case["tree"]))
     # replay = the recorded script only (bound 0 from that prefix)
     script = case.get("script", [])
-    r2 = Result()
+    r2 = Result(keep_all=True)
     if case["kind"] == "fuzz":
         orig = explorer.explore
 
